@@ -21,7 +21,7 @@ def design_level(ctx):
     q = ctx.quick
     ctx.tlc_must_hold("store", "MC_Publish", cfg="MC_Publish_quick.cfg" if q else "MC_Publish_thorough.cfg", workers=4,
                       timeout=300 if q else 1800, label="1 importer x %d readers, reorg + epoch boundary + finalization" % (2 if q else 3))
-    ctx.tlc_must_hold("store", "MC_Publish", cfg="MC_Publish_next.cfg", workers=4, timeout=600,
+    ctx.tlc_must_hold("store", "MC_Publish", cfg="MC_Publish_next_quick.cfg" if q else "MC_Publish_next.cfg", workers=4, timeout=900,
                       label="2 readers that also issue revision-next requests (header and state from one capture)")
     if not q:
         ctx.tlc_must_hold("store", "MC_Publish", cfg="MC_Publish_quick.cfg", workers=4, timeout=300, label="2 readers")
@@ -48,10 +48,10 @@ def record(ctx, binp, label, seed, streams, runs, blocks, traceruns=0, tracecap=
     if rc is None:
         raise Infra("publish driver timed out (%s)" % label)
     if rc != 0 or not os.path.exists(os.path.join(out, "runs.json")):
-        if "panic:" in o or "fatal error:" in o:
+        if died_in_thor(o):
             rp = ctx.save_replay("panic-%s-%d.txt" % (label, seed), o[-30000:])
             m = re.search(r"(panic|fatal error): (.*)", o)
-            ctx.report("panic:driver", "the process died while real code ran concurrently (%s): %s" % (label, m.group(0)[:300] if m else ""), rp)
+            ctx.report("panic:driver", "the process died in real code while it ran concurrently (%s): %s" % (label, m.group(0)[:300] if m else ""), rp)
             return None, None, o
         raise Infra("publish failed rc=%s: %s" % (rc, o[-2000:]))
     d = json.load(open(os.path.join(out, "runs.json")))
@@ -110,6 +110,22 @@ def validate(ctx, trace_path, label, how, timeout=1500):
         ctx.cov["trace_lines_validated"] = ctx.cov.get("trace_lines_validated", 0) + min(hwm, ln)
         if accepted:
             ctx.cov["traces_validated_against_impl"] += len(pending)
+            kinds = ctx.cov.setdefault("validated_event_kinds", {})
+            for k in pending:
+                prev_fin = {}
+                for e in runs[k]:
+                    name = e["e"]
+                    if name == "W":
+                        name = "W:" + e["cls"] + ("" if e["cls"] != "state" or e.get("last") else ":part")
+                    elif name == "RD":
+                        name = "RD:" + e["k"]
+                    elif name == "Skip":
+                        name = "Skip:" + e["why"]
+                    elif name == "FE" and prev_fin.get(e["r"], e["f"]) != e["f"]:
+                        kinds["FE:changed"] = kinds.get("FE:changed", 0) + 1
+                    if e["e"] == "FE":
+                        prev_fin[e["r"]] = e["f"]
+                    kinds[name] = kinds.get(name, 0) + 1
             for k in pending[:1]:
                 ctx.sample({"trace_run": runs[k][0], "first_events": runs[k][1:9]}, limit=4)
             return
@@ -223,50 +239,141 @@ def _write(ctx, name, evs):
 RACE_RE = re.compile(r"WARNING: DATA RACE\n(.*?)\n==================", re.S)
 
 
+def died_in_thor(out):
+    """Did the process die in real code?  Looks at the goroutine that panicked: the first frames after the panic line
+    (skipping the runtime) must contain a thor frame before any harness frame. Harness must() panics, OOM and runtime
+    fatal errors without thor frames are infrastructure trouble."""
+    m = re.search(r"^(panic|fatal error): .*$", out, re.M)
+    if not m:
+        return False
+    tail = out[m.end():]
+    g = re.search(r"^goroutine \d+ \[[^\]]*\]:\n((?:.+\n?)+)", tail, re.M)
+    if not g:
+        return False
+    for fn in re.findall(r"^(\S+)\(.*\)$", g.group(1), re.M):
+        if fn.startswith(("panic", "runtime.", "runtime/", "sync.", "sync/")):
+            continue
+        if fn.startswith("github.com/vechain/thor/v2/"):
+            return True
+        if fn.startswith(("main.", "verifharness/")):
+            return False
+    return False
+
+
+KNOWN_RACES = [
+    # (name kept stable for known_findings.json, predicate on (writer thor frame, other thor frame, all function names of the report))
+    ("data-race:muxdb.(*cache).GetNodeBlob",
+     lambda w, o, fns: w == "muxdb.(*cache).GetNodeBlob" and o == "muxdb.(*cache).GetNodeBlob"
+     and any(f.startswith("github.com/qianbin/directcache.entry.") for f in fns)),
+    ("data-race:trie.(*hasher).hash",
+     lambda w, o, fns: w == "trie.(*hasher).hash" and (o.startswith(("trie.(*shortNode).", "trie.(*fullNode).", "trie.(*hasher).")))),
+]
+
+
+def classify_race(rep):
+    """-> (signature | "unclassified" | "harness").  The signature is made of the PAIR (innermost thor frame of the
+    writing access, innermost thor frame of the other access), writer first, so it does not depend on which access the
+    detector saw second; the two known races keep their historical names. A report with a stack the detector could not
+    restore cannot be attributed and is only counted."""
+    blocks = re.findall(r"^((?:Previous )?(?:[Ww]rite|[Rr]ead|Atomic \w+) at [^\n]*)\n((?:  .*\n?)*)", rep, re.M)
+    if len(blocks) < 2:
+        return "unclassified"
+    accs, fns = [], []
+    for head, body in blocks[:2]:
+        if "failed to restore the stack" in body or not body.strip():
+            return "unclassified"
+        frames = re.findall(r"^\s+(\S+)\(\)\n\s+(\S+:\d+)", body, re.M)
+        fns += [f for f, loc in frames]
+        thor = [f for f, loc in frames if "github.com/vechain/thor/v2/" in f]
+        accs.append(("rite" in head, thor[0].split("github.com/vechain/thor/v2/")[-1] if thor else None))
+    if all(t is None for w, t in accs):
+        return "harness"
+    if any(t is None for w, t in accs):
+        # one side entirely in the harness / a library, the other in thor: name the thor side, keep the pair shape
+        accs = [(w, t or "(non-thor)") for w, t in accs]
+    accs.sort(key=lambda a: (not a[0], a[1]))          # writer first; two writers: by name
+    w, o = accs[0][1], accs[1][1]
+    for name, pred in KNOWN_RACES:
+        if pred(w, o, fns):
+            return name
+    return "data-race:%s|%s" % (w, o)
+
+
 def race_byproduct(ctx):
     """Same driver under the race detector. Outside the TLA+ argument (DESIGN section 1)."""
     try:
         binp = ctx.build("publish", race=True)
     except Infra as e:
-        ctx.cov["race_detector"] = "race build failed in this sandbox, part skipped: " + str(e)[-300:]
+        ctx.cov["race_detector"] = {"skipped": "race build failed in this sandbox (no cgo / race runtime?): " + str(e)[-300:]}
         return
     q = ctx.quick
     out = ctx.tmp("race")
-    argv = [binp, "-out", out, "-seed", str(ctx.seed + 5), "-streams", "1" if q else "3", "-runs", "2" if q else "4", "-blocks", "16" if q else "30",
+    argv = [binp, "-out", out, "-seed", str(ctx.seed + 5), "-streams", "2" if q else "4", "-runs", "1" if q else "3", "-blocks", "16" if q else "30",
             "-traceruns", "1", "-batch", "60"]
-    rc, o = ctx.run(argv, timeout=1500, env={"GORACE": "halt_on_error=0 history_size=5"})
+    rc, o = ctx.run(argv, timeout=1500, env={"GORACE": "halt_on_error=0 history_size=6"})
     reports = RACE_RE.findall(o)
-    ctx.cov["race_detector"] = {"runs": 2 if q else 12, "reports": len(reports), "exit": rc}
+    info = {"reports": len(reports), "exit": rc, "runs": 0, "unclassified": 0, "by_signature": {}}
+    ctx.cov["race_detector"] = info
+    # the run itself first: reports of the ever-present known race must not hide a crash or a timeout
+    if rc is None:
+        raise Infra("publish (race build) timed out")
+    if rc == 3:
+        raise Infra("publish (race build) harness error: " + o[-1500:])
+    if rc not in (0, 66):
+        if died_in_thor(o):
+            rp = ctx.save_replay("race-panic.txt", o[-30000:])
+            m = re.search(r"(panic|fatal error): (.*)", o)
+            ctx.report("panic:driver", "real code died under the race detector: %s" % (m.group(0)[:300] if m else ""), rp)
+        else:
+            raise Infra("publish (race build) failed rc=%s: %s" % (rc, o[-2000:]))
     seen = {}
-    counts = {}
     for rep in reports:
-        # access blocks: "Write at ... by goroutine N:" / "Previous read at ...:" followed by frames
-        blocks = re.findall(r"^((?:Previous )?(?:[Ww]rite|[Rr]ead|Atomic \w+) at [^\n]*)\n((?:  .*\n?)+)", rep, re.M)
-        accs = []
-        for head, body in blocks[:2]:
-            frames = re.findall(r"^\s+(\S+)\(\)\n\s+(\S+:\d+)", body, re.M)
-            thor = [f for f, loc in frames if "github.com/vechain/thor/v2/" in f]
-            accs.append(("rite" in head, thor[0].split("github.com/vechain/thor/v2/")[-1] if thor else None))
-        if not accs or all(t is None for w, t in accs):
-            seen.setdefault("harness", rep)
+        sig = classify_race(rep)
+        if sig == "unclassified":
+            info["unclassified"] += 1
             continue
-        # name the race after the WRITING access (stable whichever access the detector saw second)
-        writers = sorted(t for w, t in accs if w and t) or sorted(t for w, t in accs if t)
-        sig = "data-race:" + writers[0]
-        counts[sig] = counts.get(sig, 0) + 1
+        info["by_signature"][sig] = info["by_signature"].get(sig, 0) + 1
         seen.setdefault(sig, rep)
-    ctx.cov["race_detector"]["by_signature"] = counts
+    if "harness" in seen:
+        raise Infra("data race inside the harness itself (my bug):\n" + seen["harness"][:3000])
     for sig, rep in seen.items():
-        if sig == "harness":
-            raise Infra("data race inside the harness itself (my bug):\n" + rep[:3000])
         rp = ctx.save_replay("race-%s.txt" % re.sub(r"[^A-Za-z0-9_.-]", "_", sig), rep)
         ctx.report(sig, "race detector: %s\n%s" % (sig, rep[:600]), rp)
-    if rc not in (0, 66) and not reports:
-        if rc == 3:
-            raise Infra("publish (race build) harness error: " + o[-1000:])
-        if rc is None:
-            raise Infra("publish (race build) timed out")
-        raise Infra("publish (race build) failed rc=%s: %s" % (rc, o[-1500:]))
     if os.path.exists(os.path.join(out, "runs.json")):
         d = json.load(open(os.path.join(out, "runs.json")))
+        info["runs"] = sum(1 for r in d["runs"] if r["run"] >= 0)
+        info["pos_runs"] = sum(1 for r in d["runs"] if r["run"] >= 0 and r.get("pos"))
         report_driver_violations(ctx, d, os.path.join(out, "trace.ndjson"), "race", {"argv": argv[1:]})
+    elif rc in (0, 66):
+        raise Infra("publish (race build) left no runs.json: " + o[-1000:])
+
+
+def directed_justified_gap(ctx):
+    """Directed schedule for bft.Engine.Justified(): a reader suspended between its two loads (hook VerifJustifiedGap,
+    /repo af57e9d) while the importer imports up to four epochs. Deterministic."""
+    try:
+        binp = ctx.build("publishgap")
+    except Infra as e:
+        ctx.cov["justified_gap"] = {"skipped": "cmd/publishgap does not build against this tree (hook bft.VerifJustifiedGap missing?): " + str(e)[-200:]}
+        return
+    cases = failing = 0
+    for seed in (ctx.seed * 2, ctx.seed * 2 + 1):            # one PoA, one PoS network
+        out = ctx.tmp("gap-%d" % seed)
+        rc, o = ctx.run([binp, "-out", out, "-seed", str(seed)], timeout=600)
+        if rc != 0 or not os.path.exists(os.path.join(out, "gap.json")):
+            raise Infra("publishgap failed rc=%s: %s" % (rc, o[-1500:]))
+        d = json.load(open(os.path.join(out, "gap.json")))
+        cases += len(d["cases"])
+        bad = [c for c in d["cases"] if c.get("error") or c.get("inadmissible")]
+        failing += len(bad)
+        by = {}
+        for c in bad:
+            msg = c.get("error") or c.get("inadmissible")
+            sig = "justified-error:stale-head" if "headID precedes finalized" in msg else ("justified-error" if c.get("error") else "justified-inadmissible")
+            by.setdefault(sig, []).append(c)
+        for sig, lst in by.items():
+            rp = ctx.save_replay("gap-%s-seed%d.json" % (re.sub(r"[^A-Za-z0-9_.-]", "_", sig), seed), {"how": {"driver": "publishgap", "seed": seed}, "signature": sig, "cases": lst})
+            ctx.report(sig, "directed schedule (reader suspended between the two loads of Engine.Justified while %d block(s) are imported; %d of %d cases, seed %d, %s): %s"
+                       % (lst[0]["imported_during_the_gap"], len(lst), len(d["cases"]), seed, "PoS" if d["pos"] else "PoA", json.dumps(lst[0])), rp)
+        ctx.sample({"justified_gap_case": d["cases"][len(d["cases"]) // 2]}, limit=5)
+    ctx.cov["justified_gap"] = {"cases": cases, "failing": failing}
